@@ -92,11 +92,12 @@ pub fn run(ctx: &Ctx) -> Verdict {
         "build variant: std".into(),
     ];
     v.subs.push(super::replay_corpus(ctx));
-    let n = ctx.tier.pick(40_000, 800_000);
+    let n = ctx.tier.pick(150_000, 4_000_000);
     v.subs
         .push(vcore::run_proptest(ctx, "unordered-chains", n, gen::scenario(cfg(0)), check));
     v.subs
         .push(vcore::run_proptest(ctx, "mixed-ordered-chains", n, gen::scenario(cfg(110)), check));
+    v.subs.extend(super::variant_reports(ctx, &["nostd-spin"]));
     v
 }
 
